@@ -6,6 +6,32 @@ use std::io::{BufWriter, Write};
 
 pub const DBG: bool = cfg!(debug_assertions);
 
+/// watchdog: a case that runs longer than the limit hangs inside the crate (a loop that a
+/// broken invariant made endless); the process is aborted, which leaves the case line
+/// without observation - the orchestrator reports it as the failing input
+static CASE_STARTED_MS: std::sync::atomic::AtomicU64 = std::sync::atomic::AtomicU64::new(u64::MAX);
+pub fn start_watchdog() {
+    let t0 = std::time::Instant::now();
+    let limit: u64 = std::env::var("HARNESS_CASE_LIMIT_MS").ok().and_then(|x| x.parse().ok()).unwrap_or(20_000);
+    CASE_STARTED_MS.store(u64::MAX, std::sync::atomic::Ordering::SeqCst);
+    std::thread::spawn(move || loop {
+        std::thread::sleep(std::time::Duration::from_millis(500));
+        let started = CASE_STARTED_MS.load(std::sync::atomic::Ordering::SeqCst);
+        let now = t0.elapsed().as_millis() as u64;
+        if started != u64::MAX && now > started && now - started > limit {
+            eprintln!("harness: case exceeded {} ms, aborting", limit);
+            std::process::abort();
+        }
+    });
+    WATCH_T0.with(|c| *c.borrow_mut() = Some(t0));
+}
+thread_local! { static WATCH_T0: RefCell<Option<std::time::Instant>> = RefCell::new(None); }
+fn watch_mark(running: bool) {
+    WATCH_T0.with(|c| if let Some(t0) = *c.borrow() {
+        CASE_STARTED_MS.store(if running { t0.elapsed().as_millis() as u64 } else { u64::MAX }, std::sync::atomic::Ordering::SeqCst);
+    });
+}
+
 pub struct Out {
     w: BufWriter<File>,
     pub cases: u64,
@@ -26,8 +52,10 @@ impl Out {
         write!(self.w, " |").unwrap();
         self.w.flush().unwrap();
         self.cases += 1;
+        watch_mark(true);
     }
     pub fn end(&mut self, obs: &[u64]) {
+        watch_mark(false);
         for x in obs {
             write!(self.w, " {}", x).unwrap();
         }
